@@ -131,6 +131,12 @@ def getObj (i : Id) : M Obj := fun s =>
 
 def alloc (o : Obj) : M Id := fun s => .ok (s.heap.length, { s with heap := s.heap ++ [o] })
 
+/-- `classmethod.__get__`: a fresh bound method for the classmethod wrapper `raw` -/
+def allocBound (raw owner : Id) : M Id := fun s =>
+  match s.heap[raw]? with
+  | some (.cmeth f) => .ok (s.heap.length, { s with heap := s.heap ++ [.meth f owner] })
+  | _ => .error .stuck
+
 def cacheGet (k : Id × Id) : M (Option Id) := fun s =>
   .ok ((s.cache.find? (fun e => e.1 = k)).map (·.2), s)
 
@@ -236,10 +242,10 @@ def findAttrCls (h : List Obj) (key : Str) : Nat → List Id → Option Id
 
 def searchFuel (h : List Obj) : Nat := (h.length + 2) * (h.length + 2)
 
-def slotsKey : Str := "__slots__".toList
-def dictKey : Str := "__dict__".toList
-def docKey : Str := "__doc__".toList
-def loadtimeKey : Str := "__loadtime__".toList
+def slotsKey : Str := ['_', '_', 's', 'l', 'o', 't', 's', '_', '_']   -- "__slots__"
+def dictKey : Str := ['_', '_', 'd', 'i', 'c', 't', '_', '_']   -- "__dict__"
+def docKey : Str := ['_', '_', 'd', 'o', 'c', '_', '_']   -- "__doc__"
+def loadtimeKey : Str := ['_', '_', 'l', 'o', 'a', 'd', 't', 'i', 'm', 'e', '_', '_']   -- "__loadtime__"
 
 /-- `obj.__slots__` through the class: (id of the `__slots__` value, the slot names) -/
 def instSlots (h : List Obj) (c : Id) : Option (Id × List Str) :=
@@ -276,8 +282,8 @@ def getattrOf (owner : Id) (name : Str) : M (Option Id) := do
       let r ← getObj raw
       match r with
       | .smeth f => pure (some f)
-      | .cmeth f => do
-        let m ← alloc (.meth f owner)     -- a fresh bound method on every access
+      | .cmeth _ => do
+        let m ← allocBound raw owner     -- a fresh bound method on every access
         pure (some m)
       | _ => pure (some raw)
   | .inst _ _ sl => pure (alookup name sl)
@@ -297,9 +303,11 @@ def delattrOf (owner : Id) (name : Str) : M Unit := do
   | .inst .. => updInstSlots owner (adel name)
   | _ => fail .stuck
 
+def memberDescriptorTy : Str := ['b', 'u', 'i', 'l', 't', 'i', 'n', 's', '.', 'm', 'e', 'm', 'b', 'e', 'r', '_', 'd', 'e', 's', 'c', 'r', 'i', 'p', 't', 'o', 'r']   -- "builtins.member_descriptor"
+
 def isMemberDescriptor (h : List Obj) (i : Id) : Bool :=
   match h[i]? with
-  | some (.atom t _) => t == "builtins.member_descriptor".toList
+  | some (.atom t _) => t == memberDescriptorTy
   | _ => false
 
 /-! ### the handlers; `rec vs old new` is the recursive `livepatch(old, new, visit_stack=vs)` -/
@@ -361,17 +369,20 @@ def lpCells (cx : Ctx) (rec : Rec) (vs : List Id) : List Id → List Id → M Un
     | _, _ => fail .stuck
   | _, _ => pure ()
 
+def lpFunctionBody (cx : Ctx) (rec : Rec) (vs : List Id) (old : Id) (ncode ndef ndoc od nd : Nat)
+    (oc nc : List Id) : M Id := do
+  updFunc old ncode ndef ndoc
+  let _ ← rec vs od nd
+  lpCells cx rec vs oc nc
+  pure old
+
 def lpFunction (cx : Ctx) (rec : Rec) (vs : List Id) (old new : Id) : M Id := do
   let o ← getObj old
   let n ← getObj new
   match o, n with
   | .func _ _ _ _ _ od oc _, .func _ _ ncode ndef ndoc nd nc _ => do
     let s ← getSt
-    if !funcCompat s.heap old new then pure new else do
-    updFunc old ncode ndef ndoc
-    let _ ← rec vs od nd
-    lpCells cx rec vs oc nc
-    pure old
+    if !funcCompat s.heap old new then pure new else lpFunctionBody cx rec vs old ncode ndef ndoc od nd oc nc
   | _, _ => fail .stuck
 
 /-- `_livepatch__method`: goes straight to `_livepatch__function` (no visit-stack check, no cache) -/
@@ -385,7 +396,7 @@ def lpMethod (cx : Ctx) (rec : Rec) (vs : List Id) (old new : Id) : M Id := do
   | _, _ => fail .stuck
 
 /-- `_livepatch__class` -/
-def weakrefKey : Str := "__weakref__".toList
+def weakrefKey : Str := ['_', '_', 'w', 'e', 'a', 'k', 'r', 'e', 'f', '_', '_']   -- "__weakref__"
 
 /-- fixes/C16-D18.diff: `_livepatch__bases` — each new base that has a namesake among the old bases is livepatched
     with it; otherwise a class already livepatched (found in the cache by the id of the new class) is used. -/
@@ -408,6 +419,10 @@ def lpBases (rec : Rec) (vs : List Id) (oldBases : List Id) : List Id → M (Lis
       let rs ← lpBases rec vs oldBases rest
       pure (r :: rs)
 
+/-- the value assigned to `oldclass.__bases__` -/
+def classBases (cx : Ctx) (rec : Rec) (vs : List Id) (ob nb : List Id) : M (List Id) :=
+  if cx.fx.d18 then lpBases rec vs ob nb else pure nb
+
 def lpClass (cx : Ctx) (rec : Rec) (vs : List Id) (old new : Id) : M Id := do
   let o ← getObj old
   let n ← getObj new
@@ -420,7 +435,7 @@ def lpClass (cx : Ctx) (rec : Rec) (vs : List Id) (old new : Id) : M Id := do
     let na := if cx.fx.d44 then na0.filter (fun p => p.1 != dictKey && p.1 != weakrefKey) else na0
     forEach (delattrOf old) ((akeys oa).filter (fun k => !hasKey k na))
     forEach (fun k => setattrOf old k ((alookup k na).getD 0)) ((akeys na).filter (fun k => !hasKey k oa))
-    let bases ← if cx.fx.d18 then lpBases rec vs ob nb else pure nb
+    let bases ← classBases cx rec vs ob nb
     updClsBases old bases
     match alookup docKey na with
     | none => fail .stuck
@@ -497,8 +512,7 @@ def resolveKind (cx : Ctx) (rec : Rec) (vs : List Id) (old new : Id) (assumeModu
   let o ← getObj old
   let n ← getObj new
   let s ← getSt
-  let nm := defModule s.heap new
-  if cx.modname.isSome && nm.isSome && nm != cx.modname then pure none
+  if cx.modname.isSome && (defModule s.heap new).isSome && defModule s.heap new != cx.modname then pure none
   else if assumeModule then pure (some .module)
   else if sameType s.heap old new then pure (some o.kind)
   else match o, n with
